@@ -43,7 +43,7 @@ def label_scope_programs():
     jumps = {"goto": "IF N% = 99 THEN GOTO {l}", "gosub": "IF N% = 99 THEN GOSUB {l}", "on-goto": "ON N% GOTO {l}", "on-gosub": "ON N% GOSUB {l}",
              "on-error": "ON ERROR GOTO {l}", "resume": "IF N% = 99 THEN RESUME {l}", "return": "IF N% = 99 THEN RETURN {l}",
              "if-goto": "IF N% = 99 THEN {l}" , "else-goto": "IF N% = 1 THEN PRINT 1 ELSE GOTO {l}"}
-    labels = {"main1": "LM1", "main2": "LM2", "sub": "LS", "fun": "LF", "sub2": "LS2"}
+    labels = {"main1": "LM1", "main2": "LM2", "main3": "LM3", "sub": "LS", "fun": "LF", "sub2": "LS2"}
     out = []
     for jk, jt in jumps.items():
         for frm in ("main1", "main2", "sub", "fun"):
@@ -53,11 +53,13 @@ def label_scope_programs():
                 lines += [j] if frm == "main1" else []
                 lines += ["P", "R% = F%(1)", 'PRINT "main"', "END", "LM1:", 'PRINT "lm1"', "RETURN"]
                 lines += ["SUB P"] + (["  " + j] if frm == "sub" else []) + ['  PRINT "p"', "  EXIT SUB", "LS:", '  PRINT "ls"', "END SUB"]
-                lines += ["SUB P2", "LS2:", '  PRINT "p2"', "END SUB"]
-                lines += ["FUNCTION F% (X%)"] + (["  " + j] if frm == "fun" else []) + ["  F% = X%", "  EXIT FUNCTION", "LF:", "  F% = 2", "END FUNCTION"]
-                # module-level code that stands after the procedures
+                # module-level code that stands after a SUB, between the procedures
                 lines += [j] if frm == "main2" else []
                 lines += ["LM2:", 'PRINT "lm2"', "END"]
+                lines += ["SUB P2", "LS2:", '  PRINT "p2"', "END SUB"]
+                lines += ["FUNCTION F% (X%)"] + (["  " + j] if frm == "fun" else []) + ["  F% = X%", "  EXIT FUNCTION", "LF:", "  F% = 2", "END FUNCTION"]
+                # and after a FUNCTION, at the end of the file
+                lines += ["LM3:", 'PRINT "lm3"', "END"]
                 out.append({"src": "labels:%s/%s/%s" % (jk, frm, lk), "text": "\r\n".join(lines) + "\r\n"})
     return out
 
